@@ -125,6 +125,24 @@ def paths_for(strnames, sep, maxcomp):
     return sorted(set(out))
 
 
+RECONF = [False]   # set per job: all four option settings are served by ONE Resolver re-configured through its public attributes
+
+
+class Reconfigured(object):
+    """resolvers[(ignorecase, relax)] -> always the same Resolver object, whose public attributes pathattr / ignorecase /
+    relax are assigned just before each call.  It was constructed with the opposite settings and has been used once."""
+
+    def __init__(self, anytree, attr, node):
+        self.attr = attr
+        self.r = anytree.Resolver("no_such_attribute", ignorecase=True, relax=True)
+        self.r.get(node, "x")
+        self.r.glob(node, "x*")
+
+    def __getitem__(self, key):
+        self.r.pathattr, self.r.ignorecase, self.r.relax = self.attr, key[0], key[1]
+        return self.r
+
+
 def check_tree(t, shape, names, cfg, maxcomp, only=None):
     import anytree
 
@@ -134,6 +152,10 @@ def check_tree(t, shape, names, cfg, maxcomp, only=None):
     paths = paths_for(strnames, sep, maxcomp)
     resolvers = {(ic, rx): anytree.Resolver(attr, ignorecase=ic, relax=rx) for ic in (False, True) for rx in (False, True)}
     ctx = {"shape": shape, "names": list(names), "config": cfg}
+    if RECONF[0]:
+        resolvers = Reconfigured(anytree, attr, nodes[0])
+        ctx["reconfigured"] = True
+        t.c["reconfigured_resolver_trees"] += 1
     if sep != "/" and only is None:
         # the same path strings are first resolved on a twin tree of a class with ANOTHER separator (process-wide state
         # keyed by the path alone would leak from one class to the other)
@@ -265,8 +287,9 @@ def _get(r, node, path, idm):
         return ("crash", "%s: %s" % (type(exc).__name__, exc))
 
 
-def job(items):
+def job(items, reconf=False):
     t = core.Tally()
+    RECONF[0] = reconf
     for shape, names, cfg, maxcomp in items:
         core.guard(t, "C07", {"engine": "E2", "module": MOD, "shape": shape, "names": list(names), "config": cfg},
                    check_tree, t, shape, names, cfg, maxcomp)
@@ -280,6 +303,9 @@ def _tup(x):
 def replay(c):
     t = core.Tally()
     only = (c["start"], c["path"], c["ignorecase"], c["relax"]) if "path" in c and "target" not in c and "history" not in c else None
+    RECONF[0] = bool(c.get("reconfigured"))
+    if RECONF[0]:
+        only = None   # the wrong answer may need the option flips of the calls before it
     check_tree(t, _tup(c["shape"]), tuple(c["names"]), c["config"], 3, only)
     return [v["why"] for v in t.violations]
 
@@ -308,8 +334,9 @@ def plan(tier):
 def run(tier):
     items = plan(tier)
     t = core.Tally()
-    core.run_pool([(MOD, "job", {"items": c}) for c in core.chunks(items[::-1], core.NPROC * 12)] + [("mc.capacity", "job", {"pid": "C07"})], 0, into=t)
-    core.run_pool([(MOD, "job", {"items": c}) for c in core.chunks(items[:200], core.NPROC)], 1, into=t)
+    core.run_pool([(MOD, "job", {"items": c}) for c in core.chunks(items[::-1], core.NPROC * 12)] + [("mc.capacity", "job", {"pid": "C07"}), ("mc.positional", "job", {"pid": "C07"})], 0, into=t)
+    core.run_pool([(MOD, "job", {"items": c, "reconf": True}) for c in core.chunks(items[:200], core.NPROC)], 1, into=t)
+    core.run_pool([(MOD, "job", {"items": c, "reconf": True}) for c in core.chunks(items[::7], core.NPROC * 4)], 0, into=t)
     cov = {
         "states": t.c["states"], "transitions": t.c["evaluations"], "traces_validated_against_impl": t.c["evaluations"],
         "evaluations": t.c["evaluations"], "distinct_nontrivial": t.c["nontrivial"],
@@ -322,7 +349,7 @@ def run(tier):
         "bounds": {"trees": len(items), "tier": tier},
     }
     return {"tally": t, "coverage": cov,
-            "guards": ("capacity_checks", "nontrivial", "err:RootResolverError", "err:ChildResolverError", "err:ResolverError", "theorem_instances",
+            "guards": ("positional_calls", "reconfigured_resolver_trees", "capacity_checks", "nontrivial", "err:RootResolverError", "err:ChildResolverError", "err:ResolverError", "theorem_instances",
                        "calls_after_rename"),
             "assumptions": ["ASCII case folding only (str.upper on the alphabet)",
                             "names '', '.', '..' and names containing the separator are unreachable by construction and excluded "
